@@ -100,6 +100,7 @@ def ops : CryptoOps where
   unwrap := unwrap
   pubOf := pubOf
   validPriv := validPriv
+  privOfSeed := fun d => 0 :: d
   hmac := fun k m => esc k ++ m
   sha256 := id
 
@@ -204,6 +205,9 @@ theorem msgLaws : MsgLaws ops where
     have ha' : validPriv a = true := ha
     simp only [ops, wrap]
     split <;> simp_all
+
+theorem keygenLaws : KeygenLaws ops where
+  valid_seed := by intro d _; simp [ops, validPriv]
 
 theorem hashInj : HashInj ops where
   hmac_inj := by
